@@ -38,7 +38,7 @@ def step (s : DSt) (ts : List String) : DSt × String :=
   | ["hyp"] =>
     let v := s.view
     let b (x : Bool) : String := if x then "1" else "0"
-    (s, s!"links={b (decide (LinksOk v))} agg={b (decide (AggExact v))} key={b (decide (KeysOk v))}")
+    (s, s!"links={b (decide (LinksOk v))} exact={b (decide (LinksExact v))} agg={b (decide (AggExact v))} key={b (decide (KeysOk v))}")
   | ["select", sl, cl] =>
     match parseNat? sl, parseNat? cl with
     | some sl, some cl =>
